@@ -18,6 +18,7 @@ def run(chk):
     r07c(chk)
     r07d(chk)
     r07e(chk)
+    r07f(chk)
 
 
 # ---------------------------------------------------------------------------
@@ -321,3 +322,56 @@ def r07e(chk, rid='R07.e'):
     chk.ob(rid, CODEC, 'StreamReader.decode', "the codec's own name is refused as encoding", isinstance(got, Raised) and got.kind == 'ValueError', f'{got!r}', trivial=True)
     got, me = run_case(('latin-1', False), 'ok', encoding='koi8-r', force=True)
     chk.ob(rid, CODEC, 'StreamReader.decode', 'a forced encoding is used without sniffing', got == ('text[koi8-r]/koi8-r', 7), f'{got!r}')
+
+
+def r07f(chk, rid='R07.f'):
+    chk.rule(rid, 'chunking invariance of the incremental decoder, decided by evaluation: IncrementalDecoder.decode - with detectencoding_str and _fixencoding evaluated from the source as well, and the interpreter\'s own incremental decoders underneath - is evaluated for documents with a BOM, with an @charset rule, with both and with neither, cut into two chunks at every position (thorough tier: three chunks): the concatenated output always equals the output for the whole document')
+    import codecs
+    import itertools
+
+    from sa.absint import Evaluator, Obj, Raised
+
+    m = chk.repo.mod(CODEC)
+    fn = m.get('IncrementalDecoder.decode')
+    docs = {
+        '@charset utf-8': '@charset "utf-8";a{c:"€"}'.encode('utf-8'),
+        'BOM utf-8': b'\xef\xbb\xbf' + 'a{c:"\xe9"}'.encode('utf-8'),
+        'BOM + @charset': b'\xef\xbb\xbf' + '@charset "utf-8";a{}'.encode('utf-8'),
+        'utf-16 BOM': 'a{x:"€"}'.encode('utf-16'),
+        '@charset latin-1': '@charset "iso-8859-1";a{c:"\xe9"}'.encode('iso-8859-1'),
+        'plain': b'a{top:0}',
+        'near @charset': b'@chars{top:0}',
+    }
+    intr = {'codecs.getincrementaldecoder': codecs.getincrementaldecoder, 'ValueError': 'ValueError'}
+
+    def decode_all(chunks):
+        me = Obj(decoder=None, encoding=None, force=True, _errors='strict', buffer=b'', headerfixed=False)
+        out = []
+        for i, c in enumerate(chunks):
+            r = Evaluator(fn, intrinsics=intr, model_types=(codecs.IncrementalDecoder,), module=m, cls='IncrementalDecoder').run(self=me, input=c, final=(i == len(chunks) - 1))
+            if isinstance(r, Raised):
+                return r
+            out.append(r)
+        return ''.join(out)
+
+    n = 0
+    bad = []
+    for label, data in docs.items():
+        whole = decode_all([data])
+        if isinstance(whole, Raised):
+            bad.append(f'{label}: the whole document: {whole!r}')
+            continue
+        cuts = [(i,) for i in range(0, len(data) + 1)]
+        if chk.tier == 'thorough':
+            cuts += list(itertools.combinations(range(0, len(data) + 1), 2))
+        else:
+            cuts += [(i, j) for i in (1, 3, 9) for j in (i + 1, i + 7, len(data) - 1) if i < j <= len(data)]
+        for cut in cuts:
+            pos = (0,) + cut + (len(data),)
+            chunks = [data[a:b] for a, b in zip(pos, pos[1:])]
+            got = decode_all(chunks)
+            n += 1
+            if got != whole:
+                bad.append(f'{label} cut at {cut}: {got!r} instead of {whole!r}')
+    chk.extra['chunk_schedules_evaluated'] = n
+    chk.ob(rid, CODEC, 'IncrementalDecoder.decode', f'all {n} chunk schedules give the one-shot result', not bad, f'{len(bad)} differ, e.g. ' + ' | '.join(bad[:2]))
